@@ -278,7 +278,7 @@ class QuaternionRotation(InvertibleParametricTransform, LinearTransform):
         r"""Reset transformation parameters."""
         params = self.params
         if isinstance(params, Tensor):
-            params.copy_(torch.tensor([0, 0, 0, 1], dtype=params.dtype, device=params.device))
+            params.copy_(torch.tensor([1, 0, 0, 0], dtype=params.dtype, device=params.device))
 
     def quaternion(self: QuaternionRotation) -> Tensor:
         r"""Get rotation quaternion."""
